@@ -95,6 +95,9 @@ type GenOpts struct {
 	Jitter      int      // timestamp jitter in seconds (0 = every block one second after its parent)
 	Shape       []int    // if set: node i+1 is mined on node Shape[i] (a directed tree); Blocks/Branchiness are ignored
 	OnInvalid   int      // header-valid blocks mined on top of body-invalid blocks
+	// opt-in (zero = off: nothing changes, no randomness is drawn; see remine.go)
+	Chained int `json:",omitempty"` // > 0: same-block chained transactions (ChainKinds and v2-ephemeral) join the allowed kinds, Chained times each
+	Remine  int `json:",omitempty"` // > 0: a mined block re-includes, with chance Remine/4 per block outside its ancestry, that block's transactions where still valid (same ids)
 }
 
 // Gen generates a fork tree.
@@ -106,10 +109,7 @@ func Gen(r *rng.R, env *Env, o GenOpts) *Tree {
 	g := &Node{Idx: 0, Block: env.Genesis, ID: env.Genesis.ID(), HdrOK: true, BodyOK: true, State: cm.TipState(), FullState: cm.TipState()}
 	t.add(g)
 	builders := map[*Node]*Builder{}
-	kinds := o.Kinds
-	if kinds == nil {
-		kinds = TxKinds
-	}
+	kinds := kindsFor(o)
 	for len(t.Nodes)-1 < o.Blocks || o.Shape != nil {
 		// choose the parent: usually a current branch tip, sometimes an older node
 		var parent *Node
@@ -131,6 +131,9 @@ func Gen(r *rng.R, env *Env, o GenOpts) *Tree {
 			delete(builders, parent)
 		}
 		b.Jitter = o.Jitter
+		if o.Remine > 0 {
+			b.Remine(r, t, parent, o.Remine)
+		}
 		for i := 0; i < o.TxPerBlock; i++ {
 			b.AddTx(r, kinds[r.Intn(len(kinds))])
 		}
